@@ -435,6 +435,15 @@ def check_edit(case, acc=None):
     return out
 
 
+def _forced(P, text, profile):
+    """parse with the validation forced: a validation error is an answer, any other exception is not"""
+    from hl7apy.exceptions import ValidationError
+    try:
+        return P.parse_message(text, message_profile=profile, force_validation=True)
+    except ValidationError:
+        return P.parse_message(text, message_profile=profile)
+
+
 def check_special(case):
     import hl7apy
     from hl7apy.core import Message
@@ -458,7 +467,8 @@ def check_special(case):
     restating = {m: copy_ref(T.message_ref(v, m))}
     ltext = 'MSH|^~\\&|A|B|C|D|20200101||%s|1|P|%s' % (S.msh9_text(v, m, R.DEFAULT_EC).lower(), v)
     for what, plain, withp in (('Message', lambda: Message(m.lower(), version=v), lambda: Message(m.lower(), version=v, reference=restating)),
-                               ('parse_message', lambda: P.parse_message(ltext), lambda: P.parse_message(ltext, message_profile=restating))):
+                               ('parse_message', lambda: P.parse_message(ltext), lambda: P.parse_message(ltext, message_profile=restating)),
+                               ('parse_message:force_validation', lambda: P.parse_message(ltext), lambda: _forced(P, ltext, restating))):
         try:
             a = plain().name
         except Exception:
